@@ -23,6 +23,13 @@ def main():
     if "-k" in sys.argv:
         sel = sys.argv[sys.argv.index("-k") + 1]
     muts = json.load(open(os.path.join(VERIF, "selftest", "mutants.json")))
+    # every confirmed seeded change (seeded/<id>/patch.diff) is a variant too: the rule recorded for it in
+    # seeded/results.json (first rule of its own property) must keep reporting it
+    resf = os.path.join(VERIF, "seeded", "results.json")
+    if os.path.exists(resf):
+        for sid, r in sorted(json.load(open(resf)).items()):
+            if r.get("own_property_rules"):
+                muts.append({"name": "seed-" + sid, "prop": r["property"], "rule": r["own_property_rules"][0], "seed": sid})
     scratch = tempfile.mkdtemp(prefix="sopverif-mut-")
     tree = os.path.join(scratch, "repo")
     vdir = os.path.join(scratch, "verif")
@@ -36,10 +43,24 @@ def main():
             if sel and sel not in m["name"] and sel not in m["prop"]:
                 continue
             ran += 1
-            edits = m.get("edits") or [m]
+            edits = m.get("edits") or ([] if m.get("seed") else [m])
             saved = {}
             ok_apply = True
-            for e in edits:
+            if m.get("seed"):
+                pf = os.path.join(VERIF, "seeded", m["seed"], "patch.diff")
+                files = [l[6:].strip() for l in open(pf) if l.startswith("+++ b/")]
+                for fl in files:
+                    fp = os.path.join(tree, fl)
+                    saved[fp] = open(fp).read() if os.path.exists(fp) else None
+                edits = [{"file": fl} for fl in files]
+                pr = subprocess.run(["patch", "-s", "-p1", "-i", pf], cwd=tree, capture_output=True, text=True)
+                if pr.returncode != 0:
+                    print(f"FAIL {m['name']}: patch does not apply: {pr.stdout[:300]}")
+                    ok_apply = False
+                edits_to_apply = []
+            else:
+                edits_to_apply = edits
+            for e in edits_to_apply:
                 p = os.path.join(tree, e["file"])
                 s = open(p).read()
                 saved.setdefault(p, s)
@@ -77,7 +98,13 @@ def main():
             else:
                 bad += 1
             for p, s in saved.items():
-                open(p, "w").write(s)
+                if s is None:
+                    if os.path.exists(p):
+                        os.remove(p)
+                else:
+                    open(p, "w").write(s)
+            for junk in subprocess.run(["find", tree, "-name", "*.orig", "-o", "-name", "*.rej"], capture_output=True, text=True).stdout.split():
+                os.remove(junk)
     finally:
         if "--keep" not in sys.argv:
             shutil.rmtree(scratch, ignore_errors=True)
